@@ -706,6 +706,21 @@ func (e *authEngine) gtValid(r *reqSpec) (bool, *tokRec) {
 	return true, t
 }
 
+// keylessSelected: the verifier the tenant header selects has no key at all.
+func (e *authEngine) keylessSelected(r *reqSpec) bool {
+	owner := ""
+	if len(e.ten) > 0 {
+		owner = r.tenant
+		if owner == "" {
+			return false
+		}
+	} else if r.tenant != "" {
+		return false
+	}
+	c := e.cfgs[owner]
+	return c != nil && !c.hmac && !c.rsa && !c.ecdsa && !c.jwks
+}
+
 type mwResult struct {
 	panicked bool
 	status   int
@@ -787,6 +802,12 @@ func (e *authEngine) verifierOrNil(auth bool) *pauth.MultiTenantVerifier {
 
 func (e *authEngine) buildServer(kind string, auth bool, registry, withCluster bool, keys []string) (http.Handler, bool) {
 	logger := log.NewNopLogger()
+	if os.Getenv("VERIF_AUTH_DEBUG") != "" {
+		// the servers' own log (panics recovered by the routes, denied requests) on stderr
+		if l, err := log.NewLogger("debug", nil); err == nil {
+			logger = l
+		}
+	}
 	cs := cluster.NewState(&cluster.Node{ID: "n1", ProxyAddr: "127.0.0.1:1", AdminAddr: "127.0.0.1:2"}, logger)
 	switch kind {
 	case "proxy":
@@ -841,6 +862,15 @@ var denyReasons = map[string]bool{
 	"invalid token": true, "expired token": true, "unknown tenant": true,
 }
 
+// recorder is a ResponseRecorder that also satisfies http.CloseNotifier, which gin's
+// response writer forwards to unconditionally (httputil.ReverseProxy asks for it).
+type recorder struct {
+	*httptest.ResponseRecorder
+	ch chan bool
+}
+
+func (r *recorder) CloseNotify() <-chan bool { return r.ch }
+
 type hitResult struct {
 	class    string // deny | redirect | pass
 	status   int
@@ -849,16 +879,20 @@ type hitResult struct {
 	stamp    string
 }
 
-func (e *authEngine) send(s *srvRec, method, target, host string, r *reqSpec, extra map[string]string) hitResult {
+func (e *authEngine) send(s *srvRec, method, target string, host *string, r *reqSpec, extra map[string]string) hitResult {
+	if strings.Contains(target, "/debug/pprof/profile") || strings.Contains(target, "/debug/pprof/trace") {
+		// bound the running time of the two sampling handlers when a request does get through
+		target += "?seconds=1"
+	}
 	req := httptest.NewRequest(method, target, nil)
-	if host != "" {
-		req.Host = host
+	if host != nil {
+		req.Host = *host
 	}
 	r.apply(req.Header)
 	for k, v := range extra {
 		req.Header[k] = []string{v}
 	}
-	w := httptest.NewRecorder()
+	w := &recorder{ResponseRecorder: httptest.NewRecorder(), ch: make(chan bool)}
 	before := e.mgr.observed()
 	s.h.ServeHTTP(w, req)
 	res := hitResult{status: w.Code, reason: jsonError(w.Body.Bytes()), observed: e.mgr.observed() != before,
@@ -1061,7 +1095,11 @@ func (e *authEngine) Step(ws []string, o *Out) string {
 		res := e.runMiddleware(r)
 		valid, t := e.gtValid(r)
 		o.Count("oracle:C09:decision")
-		if res.panicked {
+		if e.keylessSelected(r) {
+			// a verifier without any key is outside the property (authentication is "configured"
+			// only with a key; server.go never consults such a verifier): model comparison only
+			o.Count("req:keyless-verifier")
+		} else if res.panicked {
 			o.Count("req:panic")
 		} else if res.ran {
 			o.Count("req:accept")
@@ -1127,7 +1165,7 @@ func (e *authEngine) Step(ws []string, o *Out) string {
 			return "bad-op"
 		}
 		valid, _ := e.gtValid(r)
-		h := e.send(s, ws[2], pathURL(Unhx(ws[3])), "", r, nil)
+		h := e.send(s, ws[2], pathURL(Unhx(ws[3])), nil, r, nil)
 		e.oracleHit(o, s, valid, h, strings.Join(ws, " "))
 		o.Count("hit:" + h.class)
 		return "hit " + h.String()
@@ -1141,13 +1179,10 @@ func (e *authEngine) Step(ws []string, o *Out) string {
 			return "bad-op"
 		}
 		valid, _ := e.gtValid(r)
-		if valid {
-			return "sweep refused-valid-token"
-		}
 		var out []string
 		for _, p := range probesOf(routesOf(s.h)) {
-			h := e.send(s, p.method, pathURL(p.path), "", r, nil)
-			e.oracleHit(o, s, false, h, ws[1]+" "+p.method+" "+p.path)
+			h := e.send(s, p.method, pathURL(p.path), nil, r, nil)
+			e.oracleHit(o, s, valid, h, ws[1]+" "+p.method+" "+p.path)
 			o.Count("sweep:" + h.class)
 			out = append(out, h.class[:1])
 		}
@@ -1194,12 +1229,7 @@ func (e *authEngine) Step(ws []string, o *Out) string {
 			if x := Unhx(ws[4]); x != "" {
 				extra["X-Piko-Endpoint"] = x
 			}
-			h = e.send(s, "GET", "http://piko.local/", host, r, extra)
-			if host == "" {
-				// httptest fills Host from the URL; an empty Host needs a second pass
-				req := httptest.NewRequest("GET", "http://piko.local/", nil)
-				_ = req
-			}
+			h = e.send(s, "GET", "http://piko.local/", &host, r, extra)
 		} else {
 			if len(ws) != 6 {
 				return "bad-op"
@@ -1212,7 +1242,8 @@ func (e *authEngine) Step(ws []string, o *Out) string {
 			if r, ok = e.parseReq(ws[3], ws[4], ws[5]); !ok {
 				return "bad-op"
 			}
-			h = e.send(s, "GET", target, "127.0.0.1", r, nil)
+			lh := "127.0.0.1"
+			h = e.send(s, "GET", target, &lh, r, nil)
 		}
 		e.mgr.mu.Lock()
 		sel, dialed := append([]string{}, e.mgr.sel...), append([]string{}, e.mgr.dialed...)
@@ -1449,10 +1480,10 @@ func (g *gen) tok(id string, c gcfg, defect int, eps []string) gtok {
 	tamper, shape := "none", "ok"
 	exp, nbf := "-", "-"
 	if g.chance(70) {
-		exp = Pick(g.r, []string{"10", "60", "3600"})
+		exp = Pick(g.r, []string{"60", "300", "3600"})
 	}
 	if g.chance(25) {
-		nbf = Pick(g.r, []string{"-10", "-60", "-3600"})
+		nbf = Pick(g.r, []string{"-60", "-300", "-3600"})
 	}
 	aud, iss := "none", c.iss
 	if c.aud != "" {
@@ -1485,12 +1516,12 @@ func (g *gen) tok(id string, c gcfg, defect int, eps []string) gtok {
 	case 5:
 		shape = Pick(g.r, []string{"seg2", "seg4", "b64", "json", "expstr", "epsstr", "noalg", "algnum"})
 	case 6:
-		exp = Pick(g.r, []string{"-10", "-60", "-3600"})
+		exp = Pick(g.r, []string{"-60", "-300", "-3600"})
 		if g.chance(30) {
 			aud = Hx("wrong")
 		}
 	case 7:
-		nbf = Pick(g.r, []string{"10", "60", "3600"})
+		nbf = Pick(g.r, []string{"60", "300", "3600"})
 	case 8:
 		aud = Pick(g.r, []string{"none", Hx("wrong"), "-", Hx("PIKO"), Hx("wrong") + "," + Hx("piko2")})
 	case 9:
@@ -1513,7 +1544,8 @@ func (g *gen) tok(id string, c gcfg, defect int, eps []string) gtok {
 	return gtok{id: id, valid: valid && defect == 0}
 }
 
-var forms = []string{"bearer", "bearer", "bearer", "bearer", "lower", "upper", "nospace", "dbl", "basic", "empty", "bare", "raw", "tab", "trail"}
+var forms = []string{"bearer", "bearer", "bearer", "bearer", "bearer", "bearer", "bearer", "bearer", "bearer", "bearer", "bearer", "bearer",
+	"lower", "upper", "nospace", "dbl", "basic", "empty", "bare", "raw", "tab", "trail"}
 
 func (g *gen) hdrs(ids []string) (string, string) {
 	id := func() string { return ids[g.r.Intn(len(ids))] }
@@ -1576,7 +1608,7 @@ func (g *gen) caseMW(name string) {
 	for i := 0; i < nt; i++ {
 		c := all[g.r.Intn(len(all))]
 		defect := 0
-		if g.chance(65) {
+		if g.chance(55) {
 			defect = 1 + g.r.Intn(10)
 		}
 		var eps []string
@@ -1605,7 +1637,7 @@ func (g *gen) caseSrv(name string) {
 	}
 	g.tok("1", c, 0, nil)
 	g.tok("2", c, 1+g.r.Intn(10), nil)
-	g.tok("3", c, 2+g.r.Intn(3), nil)
+	g.tok("3", c, Pick(g.r, []int{2, 4, 5}), nil) // never acceptable
 	tenant := "-"
 	if len(ts) > 0 {
 		tenant = Hx(ts[0].owner)
@@ -1635,10 +1667,11 @@ func (g *gen) caseSrv(name string) {
 	}
 	// sweeps with requests that carry no acceptable token
 	g.p("sweep %s none:- none:- %s", kind, tenant)
-	g.p("sweep %s %s:2 none:- %s", kind, Pick(g.r, forms), tenant)
-	g.p("sweep %s none:- %s:3 %s", kind, Pick(g.r, []string{"bearer", "lower", "nospace", "raw"}), tenant)
+	g.p("sweep %s %s:2 none:- %s", kind, Pick(g.r, []string{"lower", "upper", "nospace", "dbl", "basic", "raw", "tab", "trail"}), tenant)
+	g.p("sweep %s none:- %s:3 %s", kind, Pick(g.r, []string{"bearer", "bearer", "lower", "nospace", "raw"}), tenant)
 	if g.chance(50) {
-		g.p("sweep %s bearer:2 bearer:1 %s", kind, tenant)
+		// a good Authorization must not rescue a bad x-piko-authorization
+		g.p("sweep %s bearer:3 bearer:1 %s", kind, tenant)
 	}
 	for i := 0; i < 8; i++ {
 		p := paths[g.r.Intn(len(paths))]
@@ -1650,6 +1683,8 @@ func (g *gen) caseSrv(name string) {
 			x = "bearer:1"
 		case valid:
 			a = "bearer:1"
+		case strings.Contains(p, "/profile") || strings.Contains(p, "/trace"):
+			x, a = g.hdrs([]string{"3"}) // the sampling handlers run for seconds: never let these through
 		default:
 			x, a = g.hdrs([]string{"2", "3"})
 		}
@@ -1702,6 +1737,7 @@ func (g *gen) caseConf(name string) {
 	claimSets := [][]string{nil, {"ep"}, {"ep", "my-endpoint"}, {"my-endpoint"}, {"EP"}, {"ep."}, {"my%2Dendpoint"}, {"é✓", "ep2"}}
 	var ids []string
 	var owners []string
+	var claims [][]string
 	for i := 0; i < 3+g.r.Intn(2); i++ {
 		c := all[g.r.Intn(len(all))]
 		if len(ts) > 0 && g.chance(70) {
@@ -1712,9 +1748,11 @@ func (g *gen) caseConf(name string) {
 			defect = 1 + g.r.Intn(10)
 		}
 		id := strconv.Itoa(i + 1)
-		g.tok(id, c, defect, claimSets[g.r.Intn(len(claimSets))])
+		cl := claimSets[g.r.Intn(len(claimSets))]
+		g.tok(id, c, defect, cl)
 		ids = append(ids, id)
 		owners = append(owners, c.owner)
+		claims = append(claims, cl)
 	}
 	g.p("srv proxy 1")
 	g.p("srv upstream 1")
@@ -1748,6 +1786,9 @@ func (g *gen) caseConf(name string) {
 			tenant = Hx("t1")
 		}
 		ep := Pick(g.r, epAlphabet)
+		if len(claims[k]) > 0 && g.chance(55) {
+			ep = Pick(g.r, claims[k])
+		}
 		switch g.r.Intn(4) {
 		case 0, 1:
 			host, xep := hostFor(g.r, ep), ""
